@@ -130,6 +130,36 @@ pub fn run(ctx: &'static Ctx) {
             }
         }
     }
+    // lower-case hexadecimal digits: the property lists them neither as valid nor as malformed, so both outcomes are accepted
+    // — refused, or encoded as the identifier they spell (compared case-insensitively); never as another identifier
+    {
+        let mut lc = 0u64;
+        for bg in ["PNP0A03", "ABCDEF0", "ZZZFFFF", "QEMBCDA"] {
+            for mask in 1u8..16 {
+                let v: String = bg.chars().enumerate().map(|(i, c)| if i >= 3 && mask >> (i - 3) & 1 == 1 { c.to_ascii_lowercase() } else { c }).collect();
+                if v == bg {
+                    continue;
+                }
+                for tail in ["a", "b", "c", "d", "e", "f"] {
+                    // also put each lower-case digit at each position
+                    for pos in 3..7 {
+                        let mut w: Vec<char> = v.chars().collect();
+                        w[pos] = tail.chars().next().unwrap();
+                        let id: String = w.into_iter().collect();
+                        lc += 1;
+                        ctx.tr(1);
+                        if let Ok(b) = catch(|| ser(&EISAName::new(&id))) {
+                            let back = int_decode(&b).map(|x| String::from_utf8_lossy(&eisa_decompress(x.0 as u32)).to_string());
+                            if back.as_deref().map(|s| s.eq_ignore_ascii_case(&id)) != Some(true) {
+                                ctx.violation_sized("eisa:lowercase-digit-altered", 7, || format!("EISA id {:?} accepted and emitted as {} which decompresses to {:?}", id, hex(&b), back), || json!({"family":"eisa","id":id}));
+                            }
+                        }
+                    }
+                }
+            }
+        }
+        ctx.engine("E3.eisa-lowercase-digits", json!({"ids": lc, "oracle": "refused, or the same identifier case-insensitively"}));
+    }
     for s in &bad_ids {
         bad += 1;
         ctx.tr(1);
